@@ -493,10 +493,12 @@ def r6(R, tus, fns):
     if not os.path.exists(sp):
         R.fail("rules/c20_sites.json (frozen list of confirmed PRECONDITION sites) is missing")
     sites = {}
-    for row in json.load(open(sp)):
+    frozen = json.load(open(sp))
+    for row in frozen["sites"]:
         k = (row["function"], row["array"], row["access"], tuple(row.get("conds") or ()))
         sites[k] = dict(n=row["n"], why=row["why"], shown=row.get("shown", ""))
-    res = bounds.run_all(tus, ext, table=table, domains=domains, trusted=c20_table.TRUSTED, sites=sites)
+    guarded3 = set((row["function"], row["array"], row["access"]) for row in frozen.get("guarded", []))
+    res = bounds.run_all(tus, ext, table=table, domains=domains, trusted=c20_table.TRUSTED, sites=sites, guarded=guarded3)
     tot = collections.Counter()
     used_keys = set()
     used_sites = collections.Counter()
